@@ -273,28 +273,14 @@ srv_harness! { #[kani::unwind(4)] fn c15_policy_v3_mac() { let r = policy_plain(
 srv_harness! { #[kani::unwind(4)] fn c15_policy_v6() { let r = policy_plain(0xA3, 48, 0, 1, 2); covers_policy(&r); covers_v6(&r); } }
 srv_harness! { #[kani::unwind(4)] #[kani::stub(<std::hash::DefaultHasher as std::hash::Hasher>::finish, crate::common::hasher_finish_model)] fn c15_policy_ratelimit() { let r = policy_plain(0x23, 48, 1, 0, 2); covers_policy(&r); covers_cache(&r); } }
 
-/// Datagrams that must be ignored whatever the policy: every (first byte, length) pair of the
-/// list is tried with symbolic contents against the same symbolic policy (cache size 0).
+// single datagrams that must be ignored whatever the policy (symbolic policy, policy half)
 #[cfg(kani)]
-fn reject_list(b0s: &[u8], lens: &[usize]) {
-    let mut s = any_sym(0, 0, 2);
-    let mut msg: [u8; 60] = kani::any();
-    let mut i = 0;
-    while i < b0s.len() {
-        msg[0] = b0s[i];
-        let mut j = 0;
-        while j < lens.len() {
-            let len = lens[j];
-            let (exp, _, _, _) = policy_call!(s, &msg[..len], false, None);
-            assert!(matches!(exp, Expect::Silent(_)), "oracle: malformed / non-client datagrams are silent");
-            j += 1;
-        }
-        i += 1;
-    }
-    assert!(decrypt_calls() == 0, "never reaches the cookie cipher");
-    kani::cover!(!s.cfg.in_deny(s.client) && s.cfg.in_allow(s.client) && s.cfg.n_versions == 3, "allowed client, all versions accepted: still ignored");
-    std::mem::forget(s);
+fn covers_reject(r: &Seen) {
+    kani::cover!(!r.in_deny && r.in_allow && r.require_nts.is_none() && r.exp == Expect::Silent(ServerReason::ParseError), "allowed client, NTS not required: still ignored");
+    kani::cover!(r.in_deny && r.deny_action == FilterAction::Deny && r.exp == Expect::Silent(ServerReason::ParseError), "deny action: a malformed datagram gets no DENY kiss either");
+    kani::cover!(r.in_deny && r.deny_action == FilterAction::Ignore && r.exp == Expect::Silent(ServerReason::Policy), "ignored by the deny list before parsing");
 }
+srv_harness! { #[kani::unwind(4)] fn c15_reject_mode4() { let r = policy_plain(0x24, 48, 0, 0, 2); covers_reject(&r); } }
 
 srv_harness! {
     #[kani::unwind(9)]
@@ -331,350 +317,13 @@ fn reject_list_modes(vn: u8) {
     std::mem::forget(s);
 }
 
-srv_harness! {
-    #[kani::unwind(9)]
-    fn c15_reject_versions() {
-        // version field 0,1,2,6,7 (client mode)
-        reject_list(&[0x03, 0x0B, 0x13, 0x33, 0x3B], &[48, 52]);
-    }
-}
-srv_harness! {
-    #[kani::unwind(9)]
-    fn c15_reject_v5() {
-        // NTPv5 header alone (request and response mode): no draft identification => ignored
-        reject_list(&[0x2B, 0x2C], &[48]);
-    }
-}
-srv_harness! {
-    #[kani::unwind(9)]
-    fn c15_reject_trailing() {
-        // 1..3 trailing bytes after the header: neither a MAC nor an extension field
-        reject_list(&[0x1B, 0x23], &[49, 50, 51]);
-    }
-}
 
-/// The same rejections through the whole `Server::handle` (daemon call shape) under the two
-/// concrete policies that would otherwise answer (everybody allowed => time; client on the deny
-/// list with action deny => DENY kiss). The calls are written out (no loops) so that the
-/// harnesses run with a minimal unwind bound.
-#[cfg(kani)]
-fn reject_server(class: crate::c16::Class) -> Server<SymClock> {
-    any_dispersion();
-    let info = any_server_info();
-    let now: u64 = kani::any();
-    let cfg = crate::c16::class_cfg(class, crate::c16::ALL_VERSIONS);
-    build_server(&cfg, SymClock { now: tt::ts_from_raw(now) }, info, zero_keyset())
-}
-
-macro_rules! reject_one {
-    ($server:expr, $msg:expr, $len:expr) => {{
-        let mut stats = RecStats::new();
-        let mut send_buf = [0u8; 60];
-        let act = $server.handle(IpAddr::V4(Ipv4Addr::new(192, 0, 2, 1)), tt::ts_from_raw(0x0123_4567_89AB_CDEF), &$msg[..$len], &mut send_buf[..$len], &mut stats);
-        assert!(matches!(act, ServerAction::Ignore), "C15: malformed / non-client / unknown-version datagrams are never answered");
-        assert!(stats.calls == 1 && stats.response == ServerResponse::Ignore && stats.reason == ServerReason::ParseError && !stats.nts, "C21: recorded once as (ParseError, Ignore)");
-        let vn = if $len > 0 { ($msg[0] >> 3) & 7 } else { 0 };
-        assert!(stats.version == vn, "C21: recorded version is the datagram's version field");
-    }};
-}
-
-srv_harness! {
-    #[kani::unwind(3)]
-    fn c15_reject_wire_modes_v4() {
-        // NTPv4, every mode other than client(3), 48 B and with a 4-byte MAC
-        let mut msg: [u8; 60] = kani::any();
-        let mut server = reject_server(crate::c16::Class::Time);
-        msg[0] = 0x20; reject_one!(server, msg, 48);
-        msg[0] = 0x20; reject_one!(server, msg, 52);
-        msg[0] = 0x21; reject_one!(server, msg, 48);
-        msg[0] = 0x21; reject_one!(server, msg, 52);
-        msg[0] = 0x22; reject_one!(server, msg, 48);
-        msg[0] = 0x22; reject_one!(server, msg, 52);
-        msg[0] = 0x24; reject_one!(server, msg, 48);
-        msg[0] = 0x24; reject_one!(server, msg, 52);
-        msg[0] = 0x25; reject_one!(server, msg, 48);
-        msg[0] = 0x25; reject_one!(server, msg, 52);
-        msg[0] = 0x26; reject_one!(server, msg, 48);
-        msg[0] = 0x26; reject_one!(server, msg, 52);
-        msg[0] = 0x27; reject_one!(server, msg, 48);
-        msg[0] = 0x27; reject_one!(server, msg, 52);
-        std::mem::forget(server);
-        let mut server = reject_server(crate::c16::Class::DenyList);
-        msg[0] = 0x20; reject_one!(server, msg, 48);
-        msg[0] = 0x20; reject_one!(server, msg, 52);
-        msg[0] = 0x21; reject_one!(server, msg, 48);
-        msg[0] = 0x21; reject_one!(server, msg, 52);
-        msg[0] = 0x22; reject_one!(server, msg, 48);
-        msg[0] = 0x22; reject_one!(server, msg, 52);
-        msg[0] = 0x24; reject_one!(server, msg, 48);
-        msg[0] = 0x24; reject_one!(server, msg, 52);
-        msg[0] = 0x25; reject_one!(server, msg, 48);
-        msg[0] = 0x25; reject_one!(server, msg, 52);
-        msg[0] = 0x26; reject_one!(server, msg, 48);
-        msg[0] = 0x26; reject_one!(server, msg, 52);
-        msg[0] = 0x27; reject_one!(server, msg, 48);
-        msg[0] = 0x27; reject_one!(server, msg, 52);
-        std::mem::forget(server);
-        kani::cover!(msg[1] == 7, "contents symbolic");
-    }
-}
-srv_harness! {
-    #[kani::unwind(3)]
-    fn c15_reject_wire_modes_v3() {
-        // NTPv3, every mode other than client(3), 48 B and with a 4-byte MAC
-        let mut msg: [u8; 60] = kani::any();
-        let mut server = reject_server(crate::c16::Class::Time);
-        msg[0] = 0x18; reject_one!(server, msg, 48);
-        msg[0] = 0x18; reject_one!(server, msg, 52);
-        msg[0] = 0x19; reject_one!(server, msg, 48);
-        msg[0] = 0x19; reject_one!(server, msg, 52);
-        msg[0] = 0x1A; reject_one!(server, msg, 48);
-        msg[0] = 0x1A; reject_one!(server, msg, 52);
-        msg[0] = 0x1C; reject_one!(server, msg, 48);
-        msg[0] = 0x1C; reject_one!(server, msg, 52);
-        msg[0] = 0x1D; reject_one!(server, msg, 48);
-        msg[0] = 0x1D; reject_one!(server, msg, 52);
-        msg[0] = 0x1E; reject_one!(server, msg, 48);
-        msg[0] = 0x1E; reject_one!(server, msg, 52);
-        msg[0] = 0x1F; reject_one!(server, msg, 48);
-        msg[0] = 0x1F; reject_one!(server, msg, 52);
-        std::mem::forget(server);
-        let mut server = reject_server(crate::c16::Class::DenyList);
-        msg[0] = 0x18; reject_one!(server, msg, 48);
-        msg[0] = 0x18; reject_one!(server, msg, 52);
-        msg[0] = 0x19; reject_one!(server, msg, 48);
-        msg[0] = 0x19; reject_one!(server, msg, 52);
-        msg[0] = 0x1A; reject_one!(server, msg, 48);
-        msg[0] = 0x1A; reject_one!(server, msg, 52);
-        msg[0] = 0x1C; reject_one!(server, msg, 48);
-        msg[0] = 0x1C; reject_one!(server, msg, 52);
-        msg[0] = 0x1D; reject_one!(server, msg, 48);
-        msg[0] = 0x1D; reject_one!(server, msg, 52);
-        msg[0] = 0x1E; reject_one!(server, msg, 48);
-        msg[0] = 0x1E; reject_one!(server, msg, 52);
-        msg[0] = 0x1F; reject_one!(server, msg, 48);
-        msg[0] = 0x1F; reject_one!(server, msg, 52);
-        std::mem::forget(server);
-        kani::cover!(msg[1] == 7, "contents symbolic");
-    }
-}
-srv_harness! {
-    #[kani::unwind(3)]
-    fn c15_reject_wire_versions() {
-        // version fields 0,1,2,6,7 (client mode)
-        let mut msg: [u8; 60] = kani::any();
-        let mut server = reject_server(crate::c16::Class::Time);
-        msg[0] = 0x03; reject_one!(server, msg, 48);
-        msg[0] = 0x0B; reject_one!(server, msg, 48);
-        msg[0] = 0x13; reject_one!(server, msg, 48);
-        msg[0] = 0x33; reject_one!(server, msg, 48);
-        msg[0] = 0x3B; reject_one!(server, msg, 48);
-        std::mem::forget(server);
-        let mut server = reject_server(crate::c16::Class::DenyList);
-        msg[0] = 0x03; reject_one!(server, msg, 48);
-        msg[0] = 0x0B; reject_one!(server, msg, 48);
-        msg[0] = 0x13; reject_one!(server, msg, 48);
-        msg[0] = 0x33; reject_one!(server, msg, 48);
-        msg[0] = 0x3B; reject_one!(server, msg, 48);
-        std::mem::forget(server);
-        kani::cover!(msg[1] == 7, "contents symbolic");
-    }
-}
-srv_harness! {
-    #[kani::unwind(3)]
-    fn c15_reject_wire_v5() {
-        // the NTPv5 header alone (request and response mode): no draft identification => ignored
-        let mut msg: [u8; 60] = kani::any();
-        let mut server = reject_server(crate::c16::Class::Time);
-        msg[0] = 0x2B; reject_one!(server, msg, 48);
-        msg[0] = 0x2C; reject_one!(server, msg, 48);
-        std::mem::forget(server);
-        let mut server = reject_server(crate::c16::Class::DenyList);
-        msg[0] = 0x2B; reject_one!(server, msg, 48);
-        std::mem::forget(server);
-        kani::cover!(msg[1] == 7, "contents symbolic");
-    }
-}
-srv_harness! {
-    #[kani::unwind(3)]
-    fn c15_reject_wire_trailing() {
-        // 1..3 trailing bytes after a v3/v4 client header: neither a MAC nor an extension field
-        let mut msg: [u8; 60] = kani::any();
-        let mut server = reject_server(crate::c16::Class::Time);
-        msg[0] = 0x1B; reject_one!(server, msg, 49);
-        msg[0] = 0x1B; reject_one!(server, msg, 50);
-        msg[0] = 0x1B; reject_one!(server, msg, 51);
-        msg[0] = 0x23; reject_one!(server, msg, 49);
-        msg[0] = 0x23; reject_one!(server, msg, 50);
-        msg[0] = 0x23; reject_one!(server, msg, 51);
-        std::mem::forget(server);
-        let mut server = reject_server(crate::c16::Class::DenyList);
-        msg[0] = 0x1B; reject_one!(server, msg, 49);
-        msg[0] = 0x1B; reject_one!(server, msg, 50);
-        msg[0] = 0x1B; reject_one!(server, msg, 51);
-        msg[0] = 0x23; reject_one!(server, msg, 49);
-        msg[0] = 0x23; reject_one!(server, msg, 50);
-        msg[0] = 0x23; reject_one!(server, msg, 51);
-        std::mem::forget(server);
-        kani::cover!(msg[1] == 7, "contents symbolic");
-    }
-}
-srv_harness! {
-    #[kani::unwind(3)]
-    fn c15_reject_short() {
-        // lengths 0, 1, 24, 47 for first bytes v4/v3/v5 client and version 0
-        // (a symbolic first byte leaves the parser's error variant symbolic and symex then walks
-        // the NAK response path for every call: > 5 GB)
-        let mut msg: [u8; 60] = kani::any();
-        let mut server = reject_server(crate::c16::Class::Time);
-        msg[0] = 0x23; reject_one!(server, msg, 0);
-        msg[0] = 0x23; reject_one!(server, msg, 1);
-        msg[0] = 0x23; reject_one!(server, msg, 24);
-        msg[0] = 0x23; reject_one!(server, msg, 47);
-        msg[0] = 0x1B; reject_one!(server, msg, 0);
-        msg[0] = 0x1B; reject_one!(server, msg, 1);
-        msg[0] = 0x1B; reject_one!(server, msg, 24);
-        msg[0] = 0x1B; reject_one!(server, msg, 47);
-        msg[0] = 0x2B; reject_one!(server, msg, 0);
-        msg[0] = 0x2B; reject_one!(server, msg, 1);
-        msg[0] = 0x2B; reject_one!(server, msg, 24);
-        msg[0] = 0x2B; reject_one!(server, msg, 47);
-        msg[0] = 0x03; reject_one!(server, msg, 0);
-        msg[0] = 0x03; reject_one!(server, msg, 1);
-        msg[0] = 0x03; reject_one!(server, msg, 24);
-        msg[0] = 0x03; reject_one!(server, msg, 47);
-        std::mem::forget(server);
-        let mut server = reject_server(crate::c16::Class::DenyList);
-        msg[0] = 0x23; reject_one!(server, msg, 0);
-        msg[0] = 0x23; reject_one!(server, msg, 1);
-        msg[0] = 0x23; reject_one!(server, msg, 24);
-        msg[0] = 0x23; reject_one!(server, msg, 47);
-        msg[0] = 0x1B; reject_one!(server, msg, 0);
-        msg[0] = 0x1B; reject_one!(server, msg, 1);
-        msg[0] = 0x1B; reject_one!(server, msg, 24);
-        msg[0] = 0x1B; reject_one!(server, msg, 47);
-        msg[0] = 0x2B; reject_one!(server, msg, 0);
-        msg[0] = 0x2B; reject_one!(server, msg, 1);
-        msg[0] = 0x2B; reject_one!(server, msg, 24);
-        msg[0] = 0x2B; reject_one!(server, msg, 47);
-        msg[0] = 0x03; reject_one!(server, msg, 0);
-        msg[0] = 0x03; reject_one!(server, msg, 1);
-        msg[0] = 0x03; reject_one!(server, msg, 24);
-        msg[0] = 0x03; reject_one!(server, msg, 47);
-        std::mem::forget(server);
-        kani::cover!(msg[1] == 7, "contents symbolic");
-    }
-}
-srv_harness! {
-    #[kani::unwind(3)]
-    fn c15_reject_short_all() {
-        // every length 0..=47, NTPv4 client first byte
-        // (a symbolic first byte leaves the parser's error variant symbolic and symex then walks
-        // the NAK response path for every call: > 5 GB)
-        let mut msg: [u8; 60] = kani::any();
-        let mut server = reject_server(crate::c16::Class::Time);
-        msg[0] = 0x23; reject_one!(server, msg, 0);
-        msg[0] = 0x23; reject_one!(server, msg, 1);
-        msg[0] = 0x23; reject_one!(server, msg, 2);
-        msg[0] = 0x23; reject_one!(server, msg, 3);
-        msg[0] = 0x23; reject_one!(server, msg, 4);
-        msg[0] = 0x23; reject_one!(server, msg, 5);
-        msg[0] = 0x23; reject_one!(server, msg, 6);
-        msg[0] = 0x23; reject_one!(server, msg, 7);
-        msg[0] = 0x23; reject_one!(server, msg, 8);
-        msg[0] = 0x23; reject_one!(server, msg, 9);
-        msg[0] = 0x23; reject_one!(server, msg, 10);
-        msg[0] = 0x23; reject_one!(server, msg, 11);
-        msg[0] = 0x23; reject_one!(server, msg, 12);
-        msg[0] = 0x23; reject_one!(server, msg, 13);
-        msg[0] = 0x23; reject_one!(server, msg, 14);
-        msg[0] = 0x23; reject_one!(server, msg, 15);
-        msg[0] = 0x23; reject_one!(server, msg, 16);
-        msg[0] = 0x23; reject_one!(server, msg, 17);
-        msg[0] = 0x23; reject_one!(server, msg, 18);
-        msg[0] = 0x23; reject_one!(server, msg, 19);
-        msg[0] = 0x23; reject_one!(server, msg, 20);
-        msg[0] = 0x23; reject_one!(server, msg, 21);
-        msg[0] = 0x23; reject_one!(server, msg, 22);
-        msg[0] = 0x23; reject_one!(server, msg, 23);
-        msg[0] = 0x23; reject_one!(server, msg, 24);
-        msg[0] = 0x23; reject_one!(server, msg, 25);
-        msg[0] = 0x23; reject_one!(server, msg, 26);
-        msg[0] = 0x23; reject_one!(server, msg, 27);
-        msg[0] = 0x23; reject_one!(server, msg, 28);
-        msg[0] = 0x23; reject_one!(server, msg, 29);
-        msg[0] = 0x23; reject_one!(server, msg, 30);
-        msg[0] = 0x23; reject_one!(server, msg, 31);
-        msg[0] = 0x23; reject_one!(server, msg, 32);
-        msg[0] = 0x23; reject_one!(server, msg, 33);
-        msg[0] = 0x23; reject_one!(server, msg, 34);
-        msg[0] = 0x23; reject_one!(server, msg, 35);
-        msg[0] = 0x23; reject_one!(server, msg, 36);
-        msg[0] = 0x23; reject_one!(server, msg, 37);
-        msg[0] = 0x23; reject_one!(server, msg, 38);
-        msg[0] = 0x23; reject_one!(server, msg, 39);
-        msg[0] = 0x23; reject_one!(server, msg, 40);
-        msg[0] = 0x23; reject_one!(server, msg, 41);
-        msg[0] = 0x23; reject_one!(server, msg, 42);
-        msg[0] = 0x23; reject_one!(server, msg, 43);
-        msg[0] = 0x23; reject_one!(server, msg, 44);
-        msg[0] = 0x23; reject_one!(server, msg, 45);
-        msg[0] = 0x23; reject_one!(server, msg, 46);
-        msg[0] = 0x23; reject_one!(server, msg, 47);
-        std::mem::forget(server);
-        let mut server = reject_server(crate::c16::Class::DenyList);
-        msg[0] = 0x23; reject_one!(server, msg, 0);
-        msg[0] = 0x23; reject_one!(server, msg, 1);
-        msg[0] = 0x23; reject_one!(server, msg, 2);
-        msg[0] = 0x23; reject_one!(server, msg, 3);
-        msg[0] = 0x23; reject_one!(server, msg, 4);
-        msg[0] = 0x23; reject_one!(server, msg, 5);
-        msg[0] = 0x23; reject_one!(server, msg, 6);
-        msg[0] = 0x23; reject_one!(server, msg, 7);
-        msg[0] = 0x23; reject_one!(server, msg, 8);
-        msg[0] = 0x23; reject_one!(server, msg, 9);
-        msg[0] = 0x23; reject_one!(server, msg, 10);
-        msg[0] = 0x23; reject_one!(server, msg, 11);
-        msg[0] = 0x23; reject_one!(server, msg, 12);
-        msg[0] = 0x23; reject_one!(server, msg, 13);
-        msg[0] = 0x23; reject_one!(server, msg, 14);
-        msg[0] = 0x23; reject_one!(server, msg, 15);
-        msg[0] = 0x23; reject_one!(server, msg, 16);
-        msg[0] = 0x23; reject_one!(server, msg, 17);
-        msg[0] = 0x23; reject_one!(server, msg, 18);
-        msg[0] = 0x23; reject_one!(server, msg, 19);
-        msg[0] = 0x23; reject_one!(server, msg, 20);
-        msg[0] = 0x23; reject_one!(server, msg, 21);
-        msg[0] = 0x23; reject_one!(server, msg, 22);
-        msg[0] = 0x23; reject_one!(server, msg, 23);
-        msg[0] = 0x23; reject_one!(server, msg, 24);
-        msg[0] = 0x23; reject_one!(server, msg, 25);
-        msg[0] = 0x23; reject_one!(server, msg, 26);
-        msg[0] = 0x23; reject_one!(server, msg, 27);
-        msg[0] = 0x23; reject_one!(server, msg, 28);
-        msg[0] = 0x23; reject_one!(server, msg, 29);
-        msg[0] = 0x23; reject_one!(server, msg, 30);
-        msg[0] = 0x23; reject_one!(server, msg, 31);
-        msg[0] = 0x23; reject_one!(server, msg, 32);
-        msg[0] = 0x23; reject_one!(server, msg, 33);
-        msg[0] = 0x23; reject_one!(server, msg, 34);
-        msg[0] = 0x23; reject_one!(server, msg, 35);
-        msg[0] = 0x23; reject_one!(server, msg, 36);
-        msg[0] = 0x23; reject_one!(server, msg, 37);
-        msg[0] = 0x23; reject_one!(server, msg, 38);
-        msg[0] = 0x23; reject_one!(server, msg, 39);
-        msg[0] = 0x23; reject_one!(server, msg, 40);
-        msg[0] = 0x23; reject_one!(server, msg, 41);
-        msg[0] = 0x23; reject_one!(server, msg, 42);
-        msg[0] = 0x23; reject_one!(server, msg, 43);
-        msg[0] = 0x23; reject_one!(server, msg, 44);
-        msg[0] = 0x23; reject_one!(server, msg, 45);
-        msg[0] = 0x23; reject_one!(server, msg, 46);
-        msg[0] = 0x23; reject_one!(server, msg, 47);
-        std::mem::forget(server);
-        kani::cover!(msg[1] == 7, "contents symbolic");
-    }
-}
+// Datagrams the parser rejects (too short, trailing bytes, unknown version, NTPv5 without draft
+// identification) are NOT covered by a Kani harness: every path on which `NtpPacket::deserialize`
+// returns an error exhausts the 8 GB cap (measured: single call, concrete policy, unwind 2:
+// 4.7 GB after 4 min and growing; the match arm `Err(DecryptError(packet))` is explored with an
+// unconstrained packet because the error's niche-encoded discriminant is not constant-folded).
+// They are exercised natively by `common::native_tests` (sampling, not a proof).
 
 // ---------------------------------------------------------------------------------------------
 // NTS requests whose encrypted field does not authenticate (DESIGN section 3, C15).
@@ -725,62 +374,10 @@ pub fn nts_template(msg: &mut [u8; 160], layout: u8, b0: u8) -> usize {
     len
 }
 
-/// End-to-end (`Server::handle`, daemon call shape) with a concrete policy class; a symbolic
-/// policy on this path does not finish symbolic execution (three response constructions over
-/// non-empty extension-field vectors: > 9 min, > 5 GB). `expect`: None = must be ignored.
-#[cfg(kani)]
-fn nts_undecryptable(layout: u8, b0: u8, class: crate::c16::Class, versions: [NtpVersion; 3], expect: Option<Kind>) {
-    any_rng();
-    let mut msg: [u8; 160] = kani::any();
-    let len = nts_template(&mut msg, layout, b0);
-    let vn = (b0 >> 3) & 7;
-    let info = any_server_info();
-    let now: u64 = kani::any();
-    let recv: u64 = kani::any();
-    // accepted versions: a single entry (keeps every loop on this path within a small unwind bound)
-    let mut cfg = crate::c16::class_cfg(class, versions);
-    cfg.n_versions = 1;
-    let mut server = build_server(&cfg, SymClock { now: tt::ts_from_raw(now) }, info, zero_keyset());
-    let mut stats = RecStats::new();
-    // longer than --max-field-sensitivity-array-size: the serialiser writes at positions symex cannot fold
-    let mut send_buf = [0u8; 256];
-    let act = server.handle(IpAddr::V4(Ipv4Addr::new(192, 0, 2, 1)), tt::ts_from_raw(recv), &msg[..len], &mut send_buf[..len], &mut stats);
-    let out = outcome(&act);
-    check_stats!(stats, out);
-    assert!(out.kind != Some(Kind::Time), "C15: a request whose NTS field does not authenticate never receives time");
-    assert!(out.kind == expect, "C15: NAK for an allowed client, DENY for a denied one, nothing for a non-accepted version");
-    assert!(stats.version == vn, "C21: recorded version");
-    match expect {
-        Some(Kind::NakKiss) => {
-            assert!(stats.nts && stats.reason == ServerReason::InvalidCrypto && stats.response == ServerResponse::NTSNak, "C21: NAK recorded as NTS / invalid crypto");
-            assert!(out.resp_len <= len && out.resp_version == vn, "C16: NAK not longer than the request");
-        }
-        Some(_) => {
-            assert!(!stats.nts && stats.reason == ServerReason::Policy && stats.response == ServerResponse::Deny, "C21: DENY recorded as policy (the cookie never decoded: not counted as NTS)");
-            assert!(out.resp_len <= len, "C16: DENY not longer than the request");
-        }
-        None => assert!(stats.reason == ServerReason::Policy && stats.response == ServerResponse::Ignore, "C21: ignored by policy"),
-    }
-    kani::cover!(out.kind == expect, "as prescribed");
-    std::mem::forget(server);
-}
-
-const V345: [NtpVersion; 3] = [NtpVersion::V4, NtpVersion::V4, NtpVersion::V4];
-const V3_ONLY: [NtpVersion; 3] = [NtpVersion::V3, NtpVersion::V3, NtpVersion::V3];
-
-srv_harness! { #[kani::unwind(2)] fn c15_nts_nocookie_nak() { nts_undecryptable(0, 0x23, crate::c16::Class::Time, V345, Some(Kind::NakKiss)); } }
-srv_harness! { #[kani::unwind(2)] fn c15_nts_nocookie_deny() { nts_undecryptable(0, 0x23, crate::c16::Class::DenyList, V345, Some(Kind::DenyKiss)); } }
-srv_harness! { #[kani::unwind(2)] fn c15_nts_nocookie_required() { nts_undecryptable(0, 0x23, crate::c16::Class::DenyNts, V345, Some(Kind::NakKiss)); } }
-srv_harness! { #[kani::unwind(2)] fn c15_nts_nocookie_version() { nts_undecryptable(0, 0x23, crate::c16::Class::Time, V3_ONLY, None); } }
-srv_harness! {
-    #[kani::unwind(3)]
-    fn c15_nts_badcookie_nak() {
-        nts_undecryptable(1, 0x23, crate::c16::Class::Time, V345, Some(Kind::NakKiss));
-        kani::cover!(decrypt_calls() == 1, "cookie with a known key id reached the (modelled) cipher");
-        kani::cover!(decrypt_calls() == 0, "cookie with an unknown key id");
-    }
-}
-srv_harness! { #[kani::unwind(25)] fn c15_nts_v5_nak() { nts_undecryptable(2, 0x2B, crate::c16::Class::Time, V345, Some(Kind::NakKiss)); } }
+// (Harnesses with symbolic field contents for these layouts - no cookie / arbitrary cookie /
+// NTPv5 - did not finish: > 9 min and > 5 GB in symbolic execution; removed. The concrete
+// witnesses below do not fit the 8 GB cap either and are NOT registered; they are kept so that
+// the lead can retry them with a larger cap. The native test in common.rs checks the same.)
 
 /// `sym_header`: bytes 1..48 symbolic; otherwise the whole datagram is concrete (zeros).
 #[cfg(kani)]
@@ -872,3 +469,4 @@ srv_harness! {
         kani::cover!(out == Some(ServerResponse::NTSNak), "NAK prepared");
     }
 }
+
